@@ -335,7 +335,8 @@ where
 /// the real reader and report whether it equals `value`.
 ///
 /// Without `eq` (or when `value` is not equal to itself, e.g. holds a NaN) all the
-/// report says is that reading back did not blow up.
+/// report says is that reading back did not blow up, and whether what was read
+/// back persists to the same bytes again.
 #[cfg(fontc_verif)]
 fn verif_readback<I, T, P>(storage: &P, id: &I, value: &T, eq: Option<fn(&T, &T) -> bool>)
 where
@@ -351,7 +352,16 @@ where
     };
     let restored = T::read(&mut reader);
     let equal = eq.and_then(|eq| eq(value, value).then(|| eq(&restored, value)));
-    fontdrasil::verif::readback(std::any::type_name::<T>(), id, equal);
+    // some types compare finer than they persist (two in-memory forms of one table)
+    let (mut original_bytes, mut restored_bytes) = (Vec::new(), Vec::new());
+    value.write(&mut original_bytes);
+    restored.write(&mut restored_bytes);
+    fontdrasil::verif::readback(
+        std::any::type_name::<T>(),
+        id,
+        equal,
+        original_bytes == restored_bytes,
+    );
 }
 
 pub trait IdAware<I> {
